@@ -1,5 +1,226 @@
-import CstModel.Proofs.Red
-import CstModel.Model.Fmt
+/-
+  C13 — Offset and range queries find the right element.
+
+  Model: `Red.tokenAtOffset`, `Red.coveringElement` (`Model/Query`).
+-/
+import CstModel.Proofs.Walk
 namespace Cst.C13
-theorem placeholder : True := trivial
+
+open Red
+
+/-! ### stored ranges never change -/
+
+theorem start_getOrAdd {r : Red} {q : Path} {o : Nat} (h : r.start q = some o) (p : Path) (i off : Nat) :
+    (r.getOrAdd p i off).start q = some o := by
+  unfold Red.getOrAdd
+  cases hl : r.slots.lookup (p ++ [i]) with
+  | some _ => exact h
+  | none =>
+    simp only
+    unfold Red.start at h ⊢
+    by_cases hq : q = []
+    · simp [hq] at h ⊢; exact h
+    · simp only [hq, ↓reduceIte] at h ⊢
+      by_cases he : q = p ++ [i]
+      · subst he; rw [hl] at h; cases h
+      · rw [lookup_cons_ne (by simpa using he)]; exact h
+
+theorem range_getOrAdd {r : Red} {q : Path} {se : Nat × Nat} (h : r.range q = some se) (p : Path) (i off : Nat) :
+    (r.getOrAdd p i off).range q = some se := by
+  unfold Red.range at h ⊢
+  cases hs : r.start q with
+  | none => simp [hs] at h
+  | some o =>
+    rw [start_getOrAdd hs]
+    have : (r.getOrAdd p i off).green q = r.green q := by unfold Red.green; rw [getOrAdd_root]
+    rw [this]
+    simpa [hs] using h
+
+/-- one step of the child iterator keeps every stored range -/
+theorem range_nextElem {r : Red} {q : Path} {se : Nat × Nat} (h : r.range q = some se) (it : It) :
+    (it.nextElem r).2.2.range q = some se := by
+  unfold It.nextElem
+  cases it.rest with
+  | nil => exact h
+  | cons c rest => exact range_getOrAdd h _ _ _
+
+theorem range_findCovering {r : Red} {q : Path} {se : Nat × Nat} (h : r.range q = some se) (rg : Nat × Nat)
+    (k : Nat) (it : It) : (findCovering rg it r k).2.range q = some se := by
+  induction k generalizing it r with
+  | zero => exact h
+  | succ k ih =>
+    simp only [findCovering]
+    have h1 := range_nextElem h it
+    cases hres : it.nextElem r with
+    | mk o rest =>
+      obtain ⟨it', r'⟩ := rest
+      rw [hres] at h1
+      cases o with
+      | none => exact h1
+      | some c =>
+        simp only
+        cases hr : r'.range c with
+        | none => exact h1
+        | some cr =>
+          simp only
+          split
+          · exact h1
+          · exact ih h1 it'
+
+/-- what `find` returns satisfies the predicate: the child's (stored) range contains the range -/
+theorem findCovering_contains (rg : Nat × Nat) (k : Nat) (it : It) (r : Red) (c : Path)
+    (h : (findCovering rg it r k).1 = some c) :
+    ∃ cr, (findCovering rg it r k).2.range c = some cr ∧ containsRange cr rg = true := by
+  induction k generalizing it r with
+  | zero => simp [findCovering] at h
+  | succ k ih =>
+    simp only [findCovering] at h ⊢
+    cases hres : it.nextElem r with
+    | mk o rest =>
+      obtain ⟨it', r'⟩ := rest
+      rw [hres] at h
+      try simp only at h ⊢
+      cases o with
+      | none => simp at h
+      | some c' =>
+        simp only at h ⊢
+        cases hr : r'.range c' with
+        | none => simp [hr] at h
+        | some cr =>
+          simp only [hr] at h ⊢
+          by_cases hc : containsRange cr rg = true
+          · simp only [hc, ↓reduceIte, Option.some.injEq] at h ⊢
+            subst h
+            exact ⟨cr, hr, hc⟩
+          · simp only [hc, Bool.false_eq_true, ↓reduceIte] at h ⊢
+            exact ih it' r' h
+
+/-- **`covering_element` returns an element whose range contains the given range** -/
+theorem cover_contains (n : Nat) (r : Red) (p : Path) (rg : Nat × Nat) (q : Path)
+    (h : (coveringGo n r p rg).1 = some q) :
+    ∃ qr, (coveringGo n r p rg).2.range q = some qr ∧ containsRange qr rg = true := by
+  induction n generalizing r p with
+  | zero => simp [coveringGo] at h
+  | succ n ih =>
+    simp only [coveringGo] at h ⊢
+    cases hr : r.range p with
+    | none => simp [hr] at h
+    | some pr =>
+      simp only [hr] at h ⊢
+      by_cases hc : containsRange pr rg = true
+      · simp only [hc, Bool.not_true, Bool.false_eq_true, ↓reduceIte] at h ⊢
+        by_cases ht : r.isToken p = true
+        · simp only [ht, ↓reduceIte, Option.some.injEq] at h ⊢
+          subst h; exact ⟨pr, hr, hc⟩
+        · simp only [ht, Bool.false_eq_true, ↓reduceIte] at h ⊢
+          cases hi : iterNew r p with
+          | none => simp [hi] at h
+          | some it =>
+            simp only [hi] at h ⊢
+            cases hf : findCovering rg it r (it.rest.length + 1) with
+            | mk o r' =>
+              rw [hf] at h
+              try simp only at h ⊢
+              cases o with
+              | some c => exact ih r' c h
+              | none =>
+                simp only [Option.some.injEq] at h
+                subst h
+                have := range_findCovering hr rg (it.rest.length + 1) it
+                rw [hf] at this
+                exact ⟨pr, this, hc⟩
+      · simp [hc] at h
+
+/-- **`covering_element` does not panic inside its precondition**: when the starting node's range
+    contains the given range (and the walk has enough fuel — the depth of the sub-tree), every
+    assertion on the way down holds, because each child it steps into was selected by that very test -/
+theorem cover_total (n : Nat) (r : Red) (p : Path) (rg : Nat × Nat) (pr : Nat × Nat) (t : Green)
+    (hr : r.range p = some pr) (hc : containsRange pr rg = true) (ht : r.green p = some t) (hfuel : gsize t ≤ n) :
+    ∃ q, (coveringGo n r p rg).1 = some q := by
+  induction n generalizing r p pr t with
+  | zero => cases t <;> simp [gsize] at hfuel
+  | succ n ih =>
+    simp only [coveringGo, hr, hc, Bool.not_true, Bool.false_eq_true, ↓reduceIte]
+    by_cases htok : r.isToken p = true
+    · simp [htok]
+    · simp only [htok, Bool.false_eq_true, ↓reduceIte]
+      have hm : ∃ o, r.start p = some o := mat_of_range hr
+      obtain ⟨o, ho⟩ := hm
+      simp only [iterNew, ht, ho]
+      cases hf : findCovering rg ⟨p, t.children, 0, o⟩ r (t.children.length + 1) with
+      | mk res r' =>
+        try simp only
+        cases res with
+        | none => exact ⟨p, rfl⟩
+        | some c =>
+          have hcont := findCovering_contains rg _ _ r c (by rw [hf])
+          rw [hf] at hcont
+          obtain ⟨cr, hcr, hcc⟩ := hcont
+          -- the child found is a child of `p`, hence strictly smaller
+          obtain ⟨j, tc, hj, htc, hsz⟩ := found_is_child rg (t.children.length + 1) ⟨p, t.children, 0, o⟩ r c t
+            (by simp) ht (by rw [hf])
+          rw [hf] at htc
+          exact ih r' c cr tc hcr hcc htc (by
+            have : gsize tc < gsize t := hsz
+            omega)
+where
+  /-- whatever the child iterator hands out is a child of the node it iterates over -/
+  found_is_child (rg : Nat × Nat) (k : Nat) (it : It) (r : Red) (c : Path) (t : Green)
+      (hrest : ∃ d, it.rest = t.children.drop d ∧ it.index = d) (ht : r.green it.parent = some t)
+      (h : (findCovering rg it r k).1 = some c) :
+      ∃ j tc, c = it.parent ++ [j] ∧ (findCovering rg it r k).2.green c = some tc ∧ gsize tc < gsize t := by
+    induction k generalizing it r with
+    | zero => simp [findCovering] at h
+    | succ k ih =>
+      obtain ⟨d, hd, hi⟩ := hrest
+      simp only [findCovering, It.nextElem] at h ⊢
+      cases hr : it.rest with
+      | nil => simp [hr] at h
+      | cons x rest =>
+        simp only [hr] at h ⊢
+        have hx : t.children[it.index]? = some x := by
+          have := congrArg List.head? hd; rw [hr] at this; simp [List.head?_drop] at this; rw [hi]; exact this.symm
+        have hroot : (r.getOrAdd it.parent it.index it.offset).root = r.root := getOrAdd_root _ _ _ _
+        have hgc : (r.getOrAdd it.parent it.index it.offset).green (it.parent ++ [it.index]) = some x := by
+          unfold Red.green at ht ⊢; rw [hroot]
+          exact C03.get_child r.root it.parent t ht it.index x hx
+        cases hrg : (r.getOrAdd it.parent it.index it.offset).range (it.parent ++ [it.index]) with
+        | none => simp [hrg] at h
+        | some cr =>
+          simp only [hrg] at h ⊢
+          by_cases hc : containsRange cr rg = true
+          · simp only [hc, ↓reduceIte, Option.some.injEq] at h ⊢
+            subst h
+            exact ⟨it.index, x, rfl, hgc, child_smaller t x (List.mem_of_getElem? hx)⟩
+          · simp only [hc, Bool.false_eq_true, ↓reduceIte] at h ⊢
+            have := ih { it with rest := rest, index := it.index + 1, offset := it.offset + x.len }
+              (r.getOrAdd it.parent it.index it.offset)
+              ⟨d + 1, by
+                have := congrArg List.tail hd; rw [hr] at this; simpa [List.tail_drop] using this, by simp [hi]⟩
+              (by unfold Red.green at ht ⊢; rw [hroot]; exact ht) h
+            exact this
+  child_smaller (t x : Green) (h : x ∈ t.children) : gsize x < gsize t := by
+    cases t with
+    | tok _ _ _ _ => simp [Green.children] at h
+    | node _ _ _ _ cs =>
+      simp only [Green.children] at h
+      simp only [gsize]
+      have : gsize x ≤ gsizeL cs := by
+        induction cs with
+        | nil => simp at h
+        | cons y ys ih =>
+          simp only [List.mem_cons] at h
+          simp only [gsizeL]
+          rcases h with rfl | h
+          · omega
+          · have := ih h; omega
+      omega
+
+/-! ### non-vacuity: an empty node and a zero-length token at a boundary -/
+example :
+    let g : Green := .node 0 0 2 0 [.tok 1 10 (some 0) 1, .node 2 1 0 0 [], .tok 3 10 (some 1) 0, .tok 4 11 (some 0) 1]
+    ((Red.new g).tokenAtOffset [] 1).1 = .between [0] [3] ∧ ((Red.new g).coveringElement [] (1, 1)).1 = some [0] ∧
+    ((Red.new g).tokenAtOffset [] 3).1 = .panic := by
+  decide +kernel
+
 end Cst.C13
